@@ -254,6 +254,30 @@ def trace_path_obeys_snell_at_a_boundary():
     prove("still-upward", And(angles[1] >= 0, angles[1] <= pi / 2))
 
 
+@harness(clause="layered-snell")
+def trace_path_reflects_with_the_angle_at_the_reflection_depth():
+    """two legs in the same layer joined by a reflection at a boundary: in a layer whose index varies with depth the ray
+    arrives at the boundary with n(z_b) sin(angle_b) = n(z_0) sin(angle_0) and leaves mirrored - the second leg's launch
+    angle obeys the same invariant (defect D14: it used to be the mirrored launch angle of the first leg)"""
+    N = ufunc("index_profile")
+
+    class _GradientLayer:
+        def index(self, z):
+            return N(z)
+    layer = _GradientLayer()
+    use_stub("pyrex.custom.layered_ice.ray_tracing.LayeredRayTracer._get_radial_distance",
+             lambda self, angle, ice_layer, zs: real("leg_advance"))
+    ice = obj("pyrex.custom.layered_ice.ice_model.LayeredIce", layers=[layer, _GradientLayer()], _index_above=1, _index_below=1)
+    tr = obj(LT, ice=ice)
+    z0, zb, z1 = real("z0"), real("z_boundary"), real("z1")
+    ang = real("angle")
+    assume(And(N(z0) >= 1, N(zb) >= 1, ang > pi / 2, ang < pi, sin(ang) * N(z0) / N(zb) < 1))     # downward first leg
+    dists, angles = tr._trace_path(ang, [z0, zb, z1], [[0], [0]], [layer, layer])
+    prove("two-legs", And(len(dists) == 2, len(angles) == 2, eq(angles[0], ang)))
+    prove("snell-invariant-carried-to-the-reflection-depth", eq(N(zb) * sin(angles[1]), N(z0) * sin(ang)))
+    prove("second-leg-goes-up", And(angles[1] >= 0, angles[1] <= pi / 2))
+
+
 @harness(clause="layered-dispatch")
 def matching_ray_tracer_dispatch():
     tr = obj(LT)
